@@ -310,6 +310,22 @@ impl Monitor for C08m {
             self.reposition(w, obs, acc);
             return;
         }
+        // a deposit by token amounts that is refused for "zero liquidity": then not even one unit of liquidity fits the maxima
+        if by_amounts && !obs.ok() && obs.out.custom() == Some(ec(E::LiquidityZero)) && obs.ix.data.len() >= 25 {
+            let pk = obs.ix.key("whirlpool");
+            if let (Some(pool), Some(pp)) = (obs.pre.data(&pk).and_then(codec::Pool::decode), obs.pre.data(&obs.ix.key("position")).and_then(codec::Position::decode)) {
+                if plain_pool(&obs.pre, &pool) && pp.whirlpool == pk {
+                    let mut r = codec::Rd::new(&obs.ix.data, 9);
+                    let (ma, mb) = (r.u64(), r.u64());
+                    let (pl, pu) = (sqrt_price_from_tick_index(pp.tick_lower_index), sqrt_price_from_tick_index(pp.tick_upper_index));
+                    let (na, nb) = position_amounts(pool.tick_current_index, pool.sqrt_price, pp.tick_lower_index, pp.tick_upper_index, pl, pu, 1, true);
+                    acc.count("by_amounts_zero_liquidity_refusals_checked");
+                    if na <= BigUint::from(ma) && nb <= BigUint::from(mb) {
+                        acc.violation(format!("c08:by_amounts_refused_although_liquidity_fits:{n}"), format!("refused with LiquidityZero, but L=1 costs ({na}, {nb}), which fits the maxima ({ma}, {mb}); tick {} price {} range [{}, {})", pool.tick_current_index, pool.sqrt_price, pp.tick_lower_index, pp.tick_upper_index), json!({"instruction": ix_brief(&obs.ix)}));
+                    }
+                }
+            }
+        }
         if !(inc || dec || by_amounts) || !obs.ok() {
             return;
         }
